@@ -727,8 +727,12 @@ pub fn deserialize_top_level_type_from_representation_identifier<'a>(
     }
 }
 
+/// Maximum number of aggregated objects that contain each other
+const MAX_NESTING_DEPTH: usize = 64;
+
 struct XTypesDeserializer<'a, E, V> {
     reader: Reader<'a>,
+    nesting_depth: usize,
     _endianness: E,
     _encoding_version: V,
 }
@@ -768,6 +772,7 @@ impl<'a, E: EndiannessRead, V: EncodingVersion> XTypesDeserializer<'a, E, V> {
                 pos: 0,
                 origin: 0,
             },
+            nesting_depth: 0,
             _endianness: endianness,
             _encoding_version: encoding_version,
         }
@@ -939,6 +944,21 @@ impl<'a, E: EndiannessRead, V: EncodingVersion> XTypesDeserializer<'a, E, V> {
 
     /// Serialization rule: { O : AsNested(O.type) }
     fn deserialize_as_nested<'b>(
+        &mut self,
+        dynamic_type: DynamicType<'b>,
+    ) -> XTypesResult<DynamicData<'b>> {
+        // A type can contain itself (e.g. TypeIdentifier), so the nesting of the objects is
+        // only limited by the data, which must not be able to exhaust the stack
+        if self.nesting_depth == MAX_NESTING_DEPTH {
+            return Err(XTypesError::InvalidData);
+        }
+        self.nesting_depth += 1;
+        let result = self.deserialize_aggregated_type(dynamic_type);
+        self.nesting_depth -= 1;
+        result
+    }
+
+    fn deserialize_aggregated_type<'b>(
         &mut self,
         dynamic_type: DynamicType<'b>,
     ) -> XTypesResult<DynamicData<'b>> {
